@@ -1,11 +1,13 @@
 #!/bin/sh
-# usage: tools/try_patch.sh <patch.diff> [check args...]   — applies a seeded change to /repo,
-# runs the check, and always undoes the change afterwards.
+# usage: tools/try_patch.sh <patch.diff> [check args...]   — applies a seeded change to the
+# repository (/repo, or $VERIF_REPO), runs the check, and always undoes the change afterwards.
 set -u
+R="${VERIF_REPO:-/repo}"
+V="$(cd "$(dirname "$0")/.." && pwd)"
 P="$1"; shift
-git -C /repo apply "$P" || { echo "patch does not apply"; exit 3; }
-cd /verif && ./check C16 "$@"
+git -C "$R" apply "$P" || { echo "patch does not apply"; exit 3; }
+cd "$V" && ./check C16 "$@"
 rc=$?
-git -C /repo apply -R "$P"
-git -C /repo status --short | grep -v '^??' | head -3
+git -C "$R" apply -R "$P"
+git -C "$R" status --short | grep -v '^??' | head -3
 exit $rc
